@@ -152,6 +152,10 @@ def pop_propagator(triggered_propagators: NDArray, previous_prop_idx: int) -> in
         if triggered_propagators[prop_idx] and prop_idx != previous_prop_idx:
             triggered_propagators[prop_idx] = False
             return prop_idx
+    if previous_prop_idx != -1 and triggered_propagators[previous_prop_idx]:
+        # nothing else is queued: the propagator that just ran has been re-queued by its own write-back
+        triggered_propagators[previous_prop_idx] = False
+        return previous_prop_idx
     return -1
 
 
